@@ -606,7 +606,8 @@ __find_zrng(const struct zif_s z[static 1U], stamp_t t, int min, int max)
 			res.next = STAMP_MAX;
 		}
 	}
-	res.offs = _zif_troffs(z, res.trno);
+	/* trno has 8 bits only, use the real index to look up the offset */
+	res.offs = _zif_troffs(z, trno > 0 ? trno : 0);
 	return res;
 }
 
